@@ -66,6 +66,8 @@ IDENT0 = {
     "std::option::Option::as_deref_mut",
     "std::result::Result::as_ref",
     "std::result::Result::as_mut",
+    "std::result::Result::as_deref",
+    "std::result::Result::as_deref_mut",
     "std::convert::Into::into",
     "std::convert::From::from",
     "std::hint::must_use",
@@ -128,6 +130,11 @@ def mk_field(base, name):
 
 
 def mk_vfield(base, variant, name):
+    if base[0] == "trylockres" and variant == "Err":
+        # TryLockError: Poisoned(PoisonError<guard>) | WouldBlock - not a guard itself
+        return ("vfield", base, "Err", name)
+    if base[0] == "vfield" and base[1][0] == "trylockres" and base[2] == "Err" and variant == "Poisoned":
+        return ("wrap", "Guard", base[1][1])
     if base[0] in ("lockres", "trylockres"):
         # Ok(guard) | Err(PoisonError(guard)): either way a guard of the same mutex; the guard
         # dereferences to the mutex content
@@ -684,3 +691,11 @@ class BodyProv:
     def dest_local(self, bb):
         t = self.body.blocks[bb]["term"]
         return t["dest"]["l"] if not t["dest"]["p"] else None
+
+
+def is_lock_result(t):
+    """the term is the Result of a lock()/try_lock() call or the error payload of a try_lock
+    (TryLockError): a decision about it says nothing about the content of the locked slot"""
+    if t[0] in ("lockres", "trylockres"):
+        return True
+    return t[0] == "vfield" and t[1][0] == "trylockres"
